@@ -31,6 +31,22 @@ def strip_z(s, which='strip'):
     return {'strip': str_strip, 'lstrip': str_lstrip, 'rstrip': str_rstrip}[which](s)
 
 
+def isspace_z(s):
+    """str.isspace(): False when a literal piece of a concatenation has a non-blank character, computed on constants"""
+    from .smt import pyval
+    z = simplify(s)
+    v = pyval(z)
+    if isinstance(v, list) and all(isinstance(c, int) for c in v):
+        return BoolVal(''.join(chr(c) for c in v).isspace())
+    if z3.is_app(z) and z.decl().kind() == z3.Z3_OP_SEQ_CONCAT:
+        for c in z.children():
+            cv = pyval(c)
+            if isinstance(cv, list) and cv and all(isinstance(x, int) for x in cv) and \
+                    not ''.join(chr(x) for x in cv).isspace():
+                return BoolVal(False)
+    return str_isspace(s)
+
+
 def guard(g, ok, exc):
     if g is not None:
         ok = simplify(ok) if not isinstance(ok, bool) else BoolVal(ok)
